@@ -411,6 +411,9 @@ ARGS_LOOP:
 							break
 						}
 						value, _ := iterator.PeekNextValue()
+						if value == "--" {
+							break
+						}
 						if _, is := isOption(value, mode, false); is {
 							break
 						}
